@@ -12,12 +12,13 @@ SELFSUB = "pysmt.solvers.qelim.SelfSubstitutionQuantifierEliminator"
 
 EXPLANATION = (
     "Abstract interpretation of pysmt/rewritings.py and pysmt/solvers/qelim.py: each rewriter - nnf, aig, "
-    "prenex, both Boolean quantifier eliminations, both partitions, propagate_toplevel - is interpreted "
+    "prenex, both Boolean quantifier eliminations, both partitions, propagate_toplevel, TimesDistributor (on ~100 "
+    "arithmetic terms over Int and Real: sums, differences, n-ary products with constant factors at every position) - is interpreted "
     "from source on ~150 operator skeletons over opaque leaves (every connective, every connective under "
     "a negation and nested once, quantifiers in every position, shadowing binders); the returned term is "
     "equivalent to the input by complete truth table (bound Boolean variables enumerated) and has the "
     "advertised shape (R2).")
-NOT_DECIDED = ["TimesDistributor; propagate_toplevel beyond the skeletons of R2 (Int values in a small domain)",
+NOT_DECIDED = ["TimesDistributor beyond its term menu (values in a small domain); propagate_toplevel beyond the skeletons of R2 (Int values in a small domain)",
                "alpha-renaming correctness of prenex beyond the reserved-set discipline"]
 
 BOOL_CONSTRUCTS = ["and", "or", "implies", "iff", "ite", "quantifier", "forall", "exists", "not"]
